@@ -114,7 +114,15 @@ def gen_macro_case(rng, cid, nmac):
             for _ in range(rng.randrange(1, 6)):
                 parts.append(rng.choice(ps + ['+', '*', '1', '(', ')', ' '] + (names[-3:] if names else [])) if ps else rng.choice(['7', '+', '1']))
             body = ''.join(parts)
-            if body.count('(') != body.count(')'):
+            # parentheses balanced in every prefix: a body like ")N49(" forms calls across the macro's own
+            # boundary when it is rescanned with the text that follows, which the reference expander does not do
+            depth_ = 0
+            ok_ = True
+            for ch_ in body:
+                depth_ += (ch_ == '(') - (ch_ == ')')
+                if depth_ < 0:
+                    ok_ = False
+            if not ok_ or depth_ != 0:
                 body = body.replace('(', '').replace(')', '')
             body = body.strip() or '0'
             ebody = expand(body, {k_: v for k_, v in macros.items() if k_ not in ps})
